@@ -11,7 +11,7 @@ EXTENDS Frost, Json
 
 CONSTANTS Shapes, IdSets, KeyChoices, CoeffChoices,     \* the original sharing
           Procs,                 \* subset of {"dealer", "dkg"}
-          Scenarios,             \* subset of {"ok","small","unknown","tchange","nonzero"}
+          Scenarios,             \* subset of {"ok","small","unknown","tchange","nonzero","onelen"}
           RCoeffChoices,         \* coefficients of refreshing polynomials
           KChoices,              \* proof nonces (distributed variant)
           Rounds,                \* number of consecutive refreshes in scenario "ok"
@@ -61,6 +61,9 @@ Plan ==
                sc' = sc @@ [scen |-> scen, R |-> Sorted(R), procs |-> <<proc>>]
        \/ /\ scen \in {"unknown", "tchange", "nonzero"}
           /\ sc' = sc @@ [scen |-> scen, R |-> sc.ids, procs |-> <<proc>>]
+       \* distributed variant: one participant's contribution commits to a polynomial of another degree
+       \/ /\ scen = "onelen" /\ proc = "dkg" /\ sc.t + 1 <= sc.n
+          /\ \E b \in IdSet : sc' = sc @@ [scen |-> scen, R |-> sc.ids, procs |-> <<proc>>, bad |-> b]
   /\ pc' = <<"refresh", 1>>
   /\ UNCHANGED fvars
 
@@ -111,11 +114,13 @@ DealerShare ==
 NR == IF sc.scen = "unknown" THEN Len(sc.R) + 1 ELSE Len(sc.R)
 TR == IF sc.scen = "tchange" THEN (IF sc.t + 1 <= NR THEN sc.t + 1 ELSE sc.t - 1) ELSE sc.t
 
+TRi(i) == IF sc.scen = "onelen" /\ i = sc.bad THEN sc.t + 1 ELSE TR
+
 Rd1 ==
   /\ pc[1] = "refresh" /\ Proc = "dkg"
   /\ LET i == sc.R[pc[2]] IN
-       \E k \in KChoices : \E cs \in SeqsOf(RCoeffChoices, Dkg1Draws(NR, TR)) :
-          /\ ActDkg1(<<"rr1s" \o ToString(E + 1), i>>, <<"rr1p" \o ToString(E + 1), i>>, i, NR, TR, 0, cs, k, TRUE)
+       \E k \in KChoices : \E cs \in SeqsOf(RCoeffChoices, Dkg1Draws(NR, TRi(i))) :
+          /\ ActDkg1(<<"rr1s" \o ToString(E + 1), i>>, <<"rr1p" \o ToString(E + 1), i>>, i, NR, TRi(i), 0, cs, k, TRUE)
           /\ sc' = IF sc.scen = "ok"
                    THEN [sc EXCEPT !.zsum = [j \in IdSet |-> IF j \in RSet THEN Add(@[j], EvalPoly(<<0>> \o cs, j)) ELSE @[j]]]
                    ELSE sc
@@ -256,6 +261,7 @@ InvVerify == (last.op = "verify") => last.res.ok
 InvRejected ==
   (Planned /\ sc.scen # "ok" /\ pc[1] = "done") =>
      /\ ~last.res.ok
+     /\ (sc.scen = "onelen") => (last.op = "dkg2" /\ last.res.err = "IncorrectNumberOfCommitments")
      /\ (sc.scen = "unknown" /\ Proc = "dealer") => last.res.err = "UnknownIdentifier"
      /\ (sc.scen = "nonzero") => last.res.err = "InvalidSecretShare"
 
